@@ -168,8 +168,22 @@ class Preempt:
             setattr(mod, attr, val)
         self._locks = []
 
+    @staticmethod
+    def _under_foreign_lock(frame):
+        """Library code that runs inside a logging handler (a record being formatted) runs under
+        that handler's lock - a real lock the simulator does not own: no pre-emption there."""
+        f, n = frame, 0
+        while f is not None and n < 60:
+            fn = f.f_code.co_filename
+            if fn.endswith("logging/__init__.py") or fn.endswith("logging/handlers.py"):
+                return True
+            f, n = f.f_back, n + 1
+        return False
+
     def _yield(self, park=False, must=False):
         me = self.current
+        if not must and self._under_foreign_lock(sys._getframe(1)):
+            return
         cands = self._runnable()
         if must:
             # the current thread cannot go on (it waits for a lock of the package)
